@@ -11,11 +11,14 @@
 (*                     byte that follows the 36-byte structure               *)
 (*          rsdt   |-> <<table index>>,  entries of the 32-bit root table    *)
 (*          xsdt   |-> <<table index>>,  entries of the 64-bit root table    *)
-(*          tables |-> <<[sig, len, bad, p32, p64]>>]                        *)
+(*          tables |-> <<[sig, len, bad, p32, p64, high]>>,                  *)
+(*          xhigh  |-> the 64-bit root table lies at or above 4 GiB]          *)
 (* bad = -1 for a table whose bytes sum to zero, else the offset of the byte *)
 (* that was corrupted after the checksum was set.  p32 / p64 are the FADT's  *)
 (* 32- and 64-bit DSDT pointers as table indices (0 = null; 0 in every       *)
-(* other table).  All structures have ACPI's packed binary layout; root      *)
+(* other table).  high = the table lies at or above 4 GiB (only tables no    *)
+(* 32-bit pointer refers to); placement never changes the expected outcome.  *)
+(* All structures have ACPI's packed binary layout; root      *)
 (* tables carry revision 1 as real firmware does.                            *)
 (*                                                                          *)
 (* Judge compares the expected outcome with what kernel/device/acpi did.     *)
